@@ -202,3 +202,7 @@ pub fn gather(
 
     Ok(())
 }
+
+#[cfg(any(kani, ruffle_rs_h263_rs_verif))]
+#[path = "/verif/hooks/h263/decoder/cpu/gather.rs"]
+mod verif_hook;
